@@ -31,13 +31,13 @@ let scan_codec inject ri w psv pt prec planes =
     let percomp x = List.map irows (transpose_rows x) in           (* comps -> rows -> samples *)
     let e = percomp ed and d = percomp dd and o = percomp out in
     ignore nn;
-    Some (List.map2 (fun (a, b) c -> (a, b, c)) (List.combine e d) o, ed)
+    Some (List.map2 (fun (a, b) c -> (a, b, c)) (List.combine e d) o, ed, out)
   end
 
 (* bytes of the scan: statistics pass (counts[nbits]++), jpeg_gen_optimal_table, derived
    table, then emit_bits / stuffing / RSTn / final padding -- all by the extracted model.
    All components use Huffman table 0 in lossless mode. *)
-let scan_bytes ri w n ed =
+let scan_bytes ri w n psv pt prec ed outrows =
   let cnt = Array.make 256 0 in
   List.iter (List.iter (List.iter (fun d ->
       let (nb, _) = encode_diff d in let k = int_of_z nb in cnt.(k) <- cnt.(k) + 1))) ed;
@@ -52,7 +52,16 @@ let scan_bytes ri w n ed =
             | None -> None
             | Some bytes ->
                 let nv = List.fold_left (+) 0 (il (drop 1 t.h_bits)) in
-                Some (0 :: (il (drop 1 t.h_bits)) @ take nv (il t.h_vals), il bytes)))
+                (* the decoder as it runs (lazy bit buffer, row counters, restart_pending), on these
+                   bytes followed by EOI, with the decoder-side derived table: must give the samples *)
+                let lz = match make_d_derived t.h_bits t.h_vals true (zi 16) with
+                  | None -> false
+                  | Some dt ->
+                      (match decode_scan_e2e (huff_dec (fun _ -> dt)) (nat_of_int n) (zi ri) (zi psv) (zi prec) (zi pt)
+                               (rep Z0 n) (nat_of_int w) (nat_of_int (List.length ed)) (bytes @ [zi 255; zi 217]) with
+                       | Some (rows, st) -> rows = outrows && (match st.br_marker with Some _ -> true | None -> il st.br_inp = [255; 217])
+                       | None -> false) in
+                Some (0 :: (il (drop 1 t.h_bits)) @ take nv (il t.h_vals), il bytes, lz)))
 let () = iter_lines (fun line ->
   let fs = fields line in
   let hd = words (List.nth fs 0) in
@@ -105,11 +114,15 @@ let () = iter_lines (fun line ->
           let (psv, pt) = List.nth pp (List.hd comps) in
           scan_codec false ri w psv pt prec (List.map (List.nth planes) comps)) scans in
       if List.exists (fun r -> r = None) results then print_endline "rej" else begin
-        let per = List.concat (List.map (function Some (l, _) -> l | None -> []) results) in
+        let per = List.concat (List.map (function Some (l, _, _) -> l | None -> []) results) in
         let sb = List.map2 (fun comps r -> match r with
-            | Some (_, ed) -> scan_bytes ri w (List.length comps) ed | None -> None) scans results in
-        let tbs = String.concat "" (List.map (function Some (t, _) -> sp t ^ " /" | None -> " ? /") sb) in
-        let ecs = String.concat " /" (List.map (function Some (_, b) -> sp b | None -> " ?") sb) in
+            | Some (_, ed, outrows) ->
+                let (psv, pt) = List.nth pp (List.hd comps) in
+                scan_bytes ri w (List.length comps) psv pt prec ed outrows
+            | None -> None) scans results in
+        let tbs = String.concat "" (List.map (function Some (t, _, _) -> sp t ^ " /" | None -> " ? /") sb) in
+        let ecs = String.concat " /" (List.map (function Some (_, b, _) -> sp b | None -> " ?") sb) in
+        let lz = if List.for_all (function Some (_, _, l) -> l | None -> false) sb then " ; lz ok" else " ; lz BAD" in
         let ed = List.map (fun (e, _, _) -> e) per and dd = List.map (fun (_, d, _) -> d) per
         and out = List.map (fun (_, _, o) -> o) per in
         let eds = if kind = "tj" then " -" else group ed in
@@ -134,7 +147,7 @@ let () = iter_lines (fun line ->
                 (rep (zi fill) (pitch * h)) in
             " ; buf" ^ sp (il b)
           end end in
-        Printf.printf "ok ed%s ; dd%s ; out%s ; tb%s ; ecs%s%s\n" eds (group dd) (group out) tbs ecs bufs
+        Printf.printf "ok ed%s ; dd%s ; out%s ; tb%s ; ecs%s%s%s\n" eds (group dd) (group out) tbs ecs lz bufs
       end
   | "inj" :: rest ->
       let a = List.map int_of_string rest in
@@ -143,7 +156,7 @@ let () = iter_lines (fun line ->
       let planes = List.map (fun f -> split_rows w (ints_of f)) (take nc (drop 2 fs)) in
       (match scan_codec true ri w psv pt prec planes with
        | None -> print_endline "rej"
-       | Some (per, _) ->
+       | Some (per, _, _) ->
            Printf.printf "ok dd%s ; out%s\n" (group (List.map (fun (_, d, _) -> d) per))
              (group (List.map (fun (_, _, o) -> o) per)))
   | _ -> print_endline "?")
